@@ -56,6 +56,7 @@ class State:
         self.inject_points = 2     # at most this many suspension points per program get an injection sweep
         self.inject_max = 120      # at most this many injected faults per sweep (stride over the line points)
         self.inject_phase = 0
+        self.allow_alias = True
 
     def bump(self, k, n=1):
         self.stats[k] = self.stats.get(k, 0) + n
@@ -466,6 +467,48 @@ class AM:
             S.inflight = prev
 
 
+class MAlias(M):
+    """exit method defined under another name and aliased (its code object is called `close_`)"""
+
+    def close_(self, et, ev, tb):
+        return M.__exit__(self, et, ev, tb)
+
+    __exit__ = close_
+
+
+class AMAlias(AM):
+    async def aclose(self, et, ev, tb):
+        return await AM.__aexit__(self, et, ev, tb)
+
+    __aexit__ = aclose
+
+
+def _logged(fn):
+    import functools
+
+    @functools.wraps(fn)
+    def wrapper(self, *a):      # the frame directly called by the with statement is `wrapper`
+        return fn(self, *a)
+    return wrapper
+
+
+def _alogged(fn):
+    import functools
+
+    @functools.wraps(fn)
+    async def wrapper(self, *a):
+        return await fn(self, *a)
+    return wrapper
+
+
+class MDeco(M):
+    __exit__ = _logged(M.__exit__)
+
+
+class AMDeco(AM):
+    __aexit__ = _alogged(AM.__aexit__)
+
+
 def noop():
     S.events.append(("noop",))
 
@@ -549,6 +592,8 @@ class R:
             if it.get("sexit"):
                 args.append("sexit=True")
         cls = "AM" if is_async else "M"
+        if S.allow_alias and it.get("exitname") in ("Alias", "Deco"):
+            cls += it["exitname"]
         return cls, args, tgt
 
     def render_with(self, s, ind):
@@ -833,7 +878,7 @@ def compile_program(prog):
     src = r.render()
     fname = "<g1-prog>"
     linecache.cache[fname] = (len(src), None, src.splitlines(True), fname)
-    ns = {"M": M, "AM": AM, "E1": E1, "E2": E2, "NS": NS, "trap": trap, "probe": probe, "noop": noop,
+    ns = {"M": M, "AM": AM, "MAlias": MAlias, "AMAlias": AMAlias, "MDeco": MDeco, "AMDeco": AMDeco, "E1": E1, "E2": E2, "NS": NS, "trap": trap, "probe": probe, "noop": noop,
           "FR": S.fr, "sys": sys, "tick": tick, "S": S, "kwget": kwget, "__name__": "g1prog"}
     with warnings.catch_warnings():
         warnings.simplefilter("ignore")  # SyntaxWarning: 'return' in a 'finally' block etc.
@@ -848,6 +893,9 @@ def run_program(prog, modes, extract_at=None, repeat=1, inject=None):
     S.modes = tuple(modes)
     if inject:
         S.inject_points, S.inject_max, S.inject_phase = inject
+    # the referents fallback documents that it only recognises exit methods that know their name is
+    # __exit__/__aexit__: aliased / decorated exit methods are used in trickery mode only
+    S.allow_alias = not ({"ref", "inject"} & set(modes))
     S.extract_at = None if extract_at is None else set(tuple(x) for x in extract_at)
     S.repeat = repeat
     S.dct = {"sub": {}, "kk": None}
